@@ -261,3 +261,67 @@ func retVals(r *ssa.Return) []ssa.Value {
 	}
 	return out
 }
+
+// cname: name of a function for use in construct keys. Named functions keep their key; closures are named
+// after the role they play (reader/writer handed to NewFnReadWriter, goroutine body by the queue it serves,
+// deferred block) so that inserting an unrelated closure does not rename them.
+func (p *Prog) cname(f *ssa.Function) string {
+	if f.Parent() == nil {
+		return p.fnKey(f)
+	}
+	if p.cnameMemo == nil {
+		p.cnameMemo = map[*ssa.Function]string{}
+	}
+	if s, ok := p.cnameMemo[f]; ok {
+		return s
+	}
+	parent := p.cname(f.Parent())
+	name := ""
+	for _, mc := range p.closureMakes(f) {
+		refs := mc.Referrers()
+		if refs == nil {
+			continue
+		}
+		for _, r := range *refs {
+			switch x := r.(type) {
+			case *ssa.Go:
+				var qs []string
+				for _, u := range p.chanUsesIn(f) {
+					if u.kind == "recv" && p.chanDesc(u.ch) != "Done()" {
+						qs = append(qs, p.chanDesc(u.ch))
+					}
+				}
+				sort.Strings(qs)
+				name = "$go:" + strings.Join(dedup(qs), "+")
+			case *ssa.Defer:
+				k := 0
+				allInstrs(f.Parent(), func(i ssa.Instruction) {
+					if d, ok := i.(*ssa.Defer); ok {
+						if _, isC := d.Call.Value.(*ssa.MakeClosure); isC && d.Pos() < x.Pos() {
+							k++
+						}
+					}
+				})
+				name = "$deferred" + strconv.Itoa(k+1)
+			case *ssa.Call:
+				if sc := x.Call.StaticCallee(); sc != nil && p.inScope[sc] && p.fnKey(sc) == "int.NewFnReadWriter" {
+					if len(x.Call.Args) == 2 && x.Call.Args[0] == ssa.Value(mc) {
+						name = "$reader"
+					} else {
+						name = "$writer"
+					}
+				}
+			case *ssa.Store:
+				if fa, ok := x.Addr.(*ssa.FieldAddr); ok {
+					name = "$" + fieldName(fa)
+				}
+			}
+		}
+	}
+	if name == "" {
+		k := p.fnKey(f)
+		name = k[strings.LastIndex(k, "$"):]
+	}
+	p.cnameMemo[f] = parent + name
+	return parent + name
+}
